@@ -440,6 +440,85 @@ func scenarioStopWait() wRes {
 	return wRes{Scenario: "stopwait", Ok: true}
 }
 
+// a sender's context is cancelled while its job is running (or still queued): that is the job's
+// business only — the job is executed, the workers live on, every later job is executed
+func scenarioSenderCancel(workers int, queued bool) wRes {
+	name := "sendercancel"
+	bg := context.Background()
+	p := New(Options{NumWorkers: workers, SendDuration: time.Millisecond})
+	p.Run(bg)
+	defer func() { // a pool that lost its workers may never stop: do not wait for it for ever
+		done := make(chan struct{})
+		go func() { p.Stop(); close(done) }()
+		select {
+		case <-done:
+		case <-time.After(3 * time.Second):
+		}
+	}()
+	c := &counter{n: map[int]int{}}
+	sent := 0
+	count := func(id int) {
+		c.mu.Lock()
+		c.n[id]++
+		c.mu.Unlock()
+	}
+	for round := 0; round < workers; round++ { // once per worker: each of them could be the one that is lost
+		release := make(chan struct{})
+		var blockers sync.WaitGroup
+		if queued { // occupy every worker, so that the job of the cancelling sender waits in the channel
+			for w := 0; w < workers; w++ {
+				id := sent
+				sent++
+				blockers.Add(1)
+				p.Send(bg, Event{Caller: "blocker", Fn: func(context.Context) error {
+					blockers.Done()
+					<-release
+					count(id)
+					return nil
+				}})
+			}
+			blockers.Wait()
+		}
+		sctx, cancel := context.WithCancel(bg)
+		started := make(chan struct{})
+		id := sent
+		sent++
+		p.Send(sctx, Event{Caller: "cancelled-sender", Fn: func(context.Context) error {
+			close(started)
+			if !queued {
+				<-release
+			}
+			count(id)
+			return nil
+		}})
+		if !queued {
+			select {
+			case <-started:
+			case <-time.After(3 * time.Second):
+				cancel()
+				close(release)
+				return wRes{Scenario: name, Ok: false, What: "a job sent to a running pool never started", Sent: sent}
+			}
+		}
+		cancel() // the sender goes away (e.g. the request that called Commit has returned)
+		time.Sleep(2 * time.Millisecond)
+		close(release)
+	}
+	for k := 0; k < 2*workers+3; k++ {
+		sent++
+		p.Send(bg, c.job(sent-1, nil))
+	}
+	if !waitFor(func() bool { e, _ := c.stats(sent); return e == sent }, 3*time.Second) {
+		e, tw := c.stats(sent)
+		return wRes{Scenario: name, Ok: false, What: fmt.Sprintf("after %d senders had their context cancelled while their job was %s (workers=%d): only %d of %d jobs accepted by the running pool were executed", workers, map[bool]string{true: "queued", false: "running"}[queued], workers, e, sent), Sent: sent, Executed: e, Twice: tw}
+	}
+	e, tw := c.stats(sent)
+	if tw > 0 {
+		return wRes{Scenario: name, Ok: false, What: fmt.Sprintf("%d jobs executed twice", tw), Sent: sent, Executed: e, Twice: tw}
+	}
+	return wRes{Scenario: name, Ok: true, Sent: sent, Executed: e}
+}
+
 func TestVerifC16(t *testing.T) {
 	out := os.Getenv("VERIF_OUT")
 	if out == "" {
@@ -486,6 +565,20 @@ func TestVerifC16(t *testing.T) {
 		for i := 0; i < reps; i++ {
 			flush(guarded("stress", func() wRes { return scenarioStress(seed+uint64(i), 2+i%5, 20+i%30, 1+i%3) }))
 			n++
+		}
+	}
+	if only == "" || only == "sendercancel" {
+		reps := 1
+		if thorough {
+			reps = 10
+		}
+		for i := 0; i < reps; i++ {
+			for _, w := range []int{1, 2, 3} {
+				for _, q := range []bool{false, true} {
+					flush(guarded("sendercancel", func() wRes { return scenarioSenderCancel(w, q) }))
+					n++
+				}
+			}
 		}
 	}
 	if only == "" || only == "sendstop" {
